@@ -15,7 +15,7 @@ open PonyVerif.Model.KeyIndex PonyVerif.Model.KeyDb
 
 theorem C14_init (sch : Schema) : WInv sch World.init := WInv.init sch
 
-/-- EVERY call — session calls, `E[pk]`, `flush()`, `commit()`, `rollback()`, an INSERT by a second connection — whether it
+/-- EVERY call — session calls, `E[pk]`, `flush()`, `obj.flush()`, `commit()`, `rollback()`, an INSERT by a second connection — whether it
     succeeds or raises, keeps: no two rows of the committed table (and of the session's view of it) agree on a primary,
     unique or composite key; outside a transaction the session sees the committed table -/
 theorem C14_step (sch : Schema) (w : World) (op : WOp) (h : WInv sch w) : WInv sch (stepW sch w op).1 := stepW_inv h op
@@ -238,6 +238,20 @@ example : (runW exSchema World.init
       [.sess (.create 0 (some [1]) [none, some 1, none] false), .sess (.create 0 (some [2]) [none, some 1, none] false),
        .sess (.create 0 (some [3]) [some 5, some 1, some 2] false), .commit [],
        .sess (.delete 2), .sess (.create 0 (some [4]) [some 5, some 1, some 2] false), .commit []]).committed.map (·.pk) = [[1], [2], [4]] := by
+  decide
+
+/-- a per-object flush: `obj.delete(); obj.flush()` as the FIRST write of a session deletes the row inside a transaction;
+    the later flush-time conflict (a new object with a unique value an unloaded row holds) rolls everything back: the
+    committed table still has both rows -/
+example : ((stepW exSchema (runW exSchema World.init
+      [.ext (row 1 (some 10) none none), .ext (row 2 (some 20) none none),
+       .fetch 0 [1] [], .sess (.delete 0), .flushOne 0 [], .sess (.create 0 (some [3]) [some 20, none, none] false)]) (.commit [])).2 = some .txnIntegrity) ∧
+    ((stepW exSchema (runW exSchema World.init
+      [.ext (row 1 (some 10) none none), .ext (row 2 (some 20) none none),
+       .fetch 0 [1] [], .sess (.delete 0), .flushOne 0 [], .sess (.create 0 (some [3]) [some 20, none, none] false)]) (.commit [])).1.committed.map (·.pk)) = [[1], [2]] ∧
+    (runW exSchema World.init
+      [.ext (row 1 (some 10) none none), .ext (row 2 (some 20) none none),
+       .fetch 0 [1] [], .sess (.delete 0), .flushOne 0 []]).inTxn = true := by
   decide
 
 /-- the auto-id branch: the database generates id 1 while an object with explicit id 1 is pending ⇒ error, rollback -/
